@@ -113,14 +113,16 @@ def run(tier, seed):
     maxlen = 2 if tier == 'quick' else 3
     pumps = [''.join(p) for L in range(1, maxlen + 1) for p in itertools.product(BASE_CHARS, repeat=L)]
     if tier == 'quick':
-        pumps = [p for p in pumps if len(p) == 1] + rnd.sample([p for p in pumps if len(p) == 2], 160)
+        wsch = [' ', '\t', '\r', '\n', '\f']
+        core2 = [a_ + b_ for a_ in wsch for b_ in wsch] + [a_ + b_ for a_ in ['\\', '/', '*', 'a', '-', ','] for b_ in wsch + ['\\', '*', '/', 'a']]
+        pumps = [p for p in pumps if len(p) == 1] + core2 + rnd.sample([p for p in pumps if len(p) == 2 and p not in core2], 120)
     # token-level pumps: an item of a list / a compound part followed by a separator (an escape's optional trailing blank next
     # to optional white space, a comment next to white space, an escaped separator ...)
     ITEMS = ['\\61 ', '\\a ', '\\41', '\\g', 'a', 'a ', '"a"', '"a" ', "'a'", '\\ ', '\\\n', 'a/**/', '/**/', '2n', '\\31 ', 'é', '-a', '--', '*|a', '.a', '#a',
              '[a]', ':a', '\\000061', '\\00061 ', 'a\\ ']
     SEPS = [',', ' ,', ', ', ' ', '', '/**/', ' /**/ ', '\t', '\r\n', '+', '>', '|']
     tpumps = [i_ + s_ for i_ in ITEMS for s_ in SEPS]
-    pumps += tpumps if tier == 'thorough' else rnd.sample(tpumps, 110) + ['\\61 ,', '\\a , ', 'a ,']
+    pumps += tpumps if tier == 'thorough' else rnd.sample(tpumps, 100) + ['\\61 ,', '\\a , ', 'a ,'] + ['a' + s_ for s_ in SEPS] + ['\\61 ' + s_ for s_ in SEPS]
     names = list(pats)
     # runtime-built attribute patterns (applied to document attribute values): analysed as the parser builds them NOW
     import soupsieve as sv, irdump, attrval
@@ -235,7 +237,8 @@ def run(tier, seed):
                          {'regex': name, 'prefix': pre, 'pump': w, 'seconds_for_k_14_18_22_26': [None if t is None else (t if t != float("inf") else 'timeout>20s') for t in times],
                           'model_search_steps': cnt, 'replay': f'the live pattern object {name} .match({worst!r})'})
     # ---- end to end: compile() on truncated constructs repeated n times
-    fams = [(':lang(', '\\61 ,'), (':-soup-contains(', '\\a ,'), (':lang(', 'a ,'), (':is(', '\\61 ,'), ('[', '\\61 |'), (':lang(', '"a" ,'), ('', '\\61 >'),
+    fams = [('div', '\r\n'), ('a,', '\r\n'), (':is(a', '\r\n'), ('[a', '\r\n'), ('a', '\r'), ('a', ' \n'), ('a', '\f\r'),
+            (':lang(', '\\61 ,'), (':-soup-contains(', '\\a ,'), (':lang(', 'a ,'), (':is(', '\\61 ,'), ('[', '\\61 |'), (':lang(', '"a" ,'), ('', '\\61 >'),
             ('', '\\61 '), ('.', '\\61 .'), (':nth-child(2n+1 of ', '\\61 ,'),
             ('[a="', 'a'), ('[a="', '\\\r'), (':lang(', 'aa,'), ('', '\\41b'), (':-soup-contains(', '"a",'), ('/*', '*a'), ('a', ' /**/'),
             (':nth-child(', '2n +'), ('[a=', "'\\'"), (':is(', 'a,'), ('', 'a>'), ('[', 'a|'), (':lang("', '\\\n'), ('#', '\\\\'),
